@@ -243,3 +243,24 @@ def plots(chk, P):
     pot3 = I3.opaque_instance(P.cls(*W.POT), ("param", "pot"))
     I3.run(P.func("atsim.potentials", "plotPotentialObjectToFile"), [fp4, args[0], args[1], pot3, args[3]])
     W.compare_trees(chk, "C18.O5", "plotPotentialObjectToFile", I3, W.out_tree(fp4), expect3)
+    # plotPotentialObject(filename, ...) opens the file and forwards
+    I4 = W.make_interp(P)
+    opened4 = {}
+    orig4 = I4.x_open
+
+    def x_open4(a, k, n, e):
+        b = orig4(a, k, n, e)
+        opened4["buf"] = b
+        return b
+    I4.x_open = x_open4
+    pot4 = I4.opaque_instance(P.cls(*W.POT), ("param", "pot"))
+    I4.run(P.func("atsim.potentials", "plotPotentialObject"), [Const("out.dat"), args[0], args[1], pot4, args[3]])
+    if "buf" not in opened4:
+        raise AnalysisError("plotPotentialObject() did not open a file")
+    b4 = opened4["buf"]
+    ok = isinstance(getattr(b4, "filename", None), Const) and b4.filename.v == "out.dat" and isinstance(getattr(b4, "mode", None), Const) \
+        and b4.mode.v in ("w", "wt")
+    chk.ob("C18.O5", "plotPotentialObject(filename, ...) writes to the named file, opened for writing", ok,
+           site=P.func("atsim.potentials", "plotPotentialObject").site(), found=(getattr(b4, "filename", None), getattr(b4, "mode", None)),
+           expect="open(filename, 'w')", key="C18.O5|plotPotentialObject|file")
+    W.compare_trees(chk, "C18.O5", "plotPotentialObject", I4, W.out_tree(b4), expect3)
